@@ -400,7 +400,7 @@ func runC19(r *fw.Rec, s corpus.Source) {
 			if hung {
 				// a call that waits for a lock nobody can release never reports (n, err)
 				r.Violate(fw.Violation{Key: fmt.Sprintf("writeto-never-returns/%s/%s", kind, s.ID), Input: text,
-					What:     fmt.Sprintf("WriteTo to a writer failing (%s) after k=%d bytes never returns: the call waits for a lock inside llir/llvm and no other goroutine is inside the library to release it (the module was written to failing writers before)", kind, k),
+					What:     fmt.Sprintf("WriteTo to a writer failing (%s) after k=%d bytes never returns: the call waits inside llir/llvm for another goroutine (a lock, a channel or a wait group) and no goroutine inside the library is able to run (the module was written to failing writers before)", kind, k),
 					Observed: witness})
 				return
 			}
